@@ -13,6 +13,9 @@ def main():
             na.append({"property_id": pid, "reason": "no check registered in this snapshot of /verif (work in progress; design in DESIGN.md §8 %s) — not a statement that the technique cannot apply" % pid})
             continue
         P = importlib.import_module("vlib.props." + pid.lower())
+        if not getattr(P, "READY", False):
+            na.append({"property_id": pid, "reason": "check under construction in this snapshot (vlib/props/%s.py exists but is not yet marked READY by the orchestrator after a green run); design in DESIGN.md §8 %s — not a statement that the technique cannot apply" % (pid.lower(), pid)})
+            continue
         if getattr(P, "DISABLED", None):
             na.append({"property_id": pid, "reason": P.DISABLED})
             continue
